@@ -260,7 +260,8 @@ def matcher_lines(key, toks, mode, rng):
     """physical lines of the definition `key = <matcher>` under a layout mode.  Returns (lines, info)"""
     if mode in ("none", "wide", "random"):
         eq = {"none": "=", "wide": " = ", "random": rng.choice(["=", " = ", " =", "=  ", "\t= "])}[mode]
-        return [key + eq + render(toks, gaps_for(toks, mode, rng))], {}
+        gaps = gaps_for(toks, mode, rng)
+        return [key + eq + render(toks, gaps)], {"gaps": gaps}
     if mode == "comment":
         gaps = gaps_for(toks, "random", rng)
         comment = rng.choice(["# plain", "#&& p.x || r.y", " # r2.sub == p2.sub", "#", "# a = b # c", "#!x"])
